@@ -208,7 +208,21 @@ impl<Rounds: Unsigned + Default> NewCipher for ChaChaAny<U24, Rounds, X> {
 impl<NonceSize: Unsigned, Rounds, IsX> StreamCipherSeek for ChaChaAny<NonceSize, Rounds, IsX> {
     #[inline]
     fn try_current_pos<T: SeekNum>(&self) -> Result<T, OverflowError> {
-        unimplemented!()
+        // `len` counts the blocks still available; `fresh` tells a full stream from an empty one.
+        let total: u128 = if NonceSize::U32 != 12 {
+            1 << 64
+        } else {
+            SMALL_LEN.into()
+        };
+        let left: u128 = if self.state.fresh {
+            total
+        } else {
+            self.state.len.into()
+        };
+        // `have` is the number of unused bytes of the last block, or minus the offset into the
+        // next block after a mid-block seek.
+        let pos = (total - left) as i128 * BLOCK as i128 - i128::from(self.state.have);
+        T::try_from(pos as u128).map_err(|_| OverflowError)
     }
     #[inline(always)]
     fn try_seek<T: SeekNum>(&mut self, pos: T) -> Result<(), LoopError> {
